@@ -228,6 +228,9 @@ func sameEls(a, b []el) bool {
 }
 
 func goOracle(base string, w world, k call, status int, b body, ob observed) string {
+	if b.Cut > 0 {
+		b = body{Kind: 0} // a body cut short is an unreadable body
+	}
 	if ob.Panicked {
 		return "the call panicked"
 	}
